@@ -27,9 +27,65 @@ CLAIMED = {
          "All Doc trees × RenderOpts by structural/measure induction; false full statements (anchor after removed trailing pads, fits_flat with pending indent) kept as proved negations next to the partial theorems that hold.",
          "Trusted: Lean kernel; Rust str::split/trim/matches semantics; integer overflow of counters not modelled; harness oracle.",
          "DESIGN.md §4 C28"),
+ "C06": ("proof", "Lean 4 proof about a model of the fragment id codec (IdWindow/IdRebase, sentinel, dictionaries) and of `canon` (renumbering ids by first occurrence) + correspondence (hx fragment codec requests vs vmodel fragment) + oracle: fresh analysis vs capture→restore at shifted ids, compared on canonicalised table dumps, later diagnostics and emitted SV",
+         "Codec bijection/refusal/sentinel/dictionary theorems and canon-invariance hold for all ids, windows and interning states; which fields carry ids is serde-derive and is validated by the dumps, not verified.",
+         "Trusted: Lean kernel; postcard; BiMap semantics; the harness's dump canonicaliser (tied to the Lean `canon` on every run).",
+         "DESIGN.md §4 C06"),
+ "C10": ("proof", "Lean 4 proof of termination and depth bound of the LL(k) stack machine for every grammar carrying a nullable/rank certificate; certificate for the 1179-production table regenerated from veryl_parser.rs and checked by `decide +kernel` on every run + correspondence (real production trace vs Lean deterministic machine; table dump vs Gen) + runtime search (malformed inputs, nesting towers, both stack sizes, child processes)",
+         "Termination/depth theorems are unbounded in input length and choices; lexer, AST construction/Drop and native stack use are runtime behaviour covered only by the runs.",
+         "Trusted: Lean kernel; tools/gen_grammar.py; parol_runtime 5.0 loop as read from the registry source; scnr2.",
+         "DESIGN.md §4 C10"),
+ "C14": ("proof", "Lean 4 proof that the detector's atomic-range/SSA abstraction has a cycle iff the bit-level dependency graph has one (flat modules), soundness through instances, negated exactness through instances with partial theorem + correspondence (hx combloop vs vmodel combloop) + independent bit-level reference oracle",
+         "All widths/variables/statements/nesting for the modelled language (assign, always_comb with if/else and reassignment, one instance level); functions, arrays, structs, arithmetic bit transfer are exercised only as opaque/not modelled.",
+         "Trusted: Lean kernel; harness reference implementation (cross-checked against the Lean reference).",
+         "DESIGN.md §4 C14"),
+ "C15": ("proof", "Lean 4 proof about the AssignTable mask algebra vs a path-enumeration reference (multiple assignment, uncovered branch, unassigned) with negated full statements and partial theorems + correspondence (hx assign vs vmodel assign) + Lean/Rust reference oracle",
+         "Exactness theorems for every design of the modelled statement language; six recorded deviations of the analyzer keyed by verified signature.",
+         "Trusted: Lean kernel; the converter's lowering of for/switch/else-if (validated by the differential).",
+         "DESIGN.md §4 C15"),
+ "C16": ("proof", "Lean 4 proof about the clock-domain lattice (compatible/merge), expression propagation and assignment/connection checks; explicit≡inferred relabelling theorem; negated statements with witnesses + correspondence (hx cdc vs vmodel cdc) + declared-crossing oracle",
+         "All expression shapes/depths and statement nestings of the modelled language; domain inference order and block-local variables are recorded findings.",
+         "Trusted: Lean kernel; where a declaration's domain comes from and the converter's visiting order are taken from the implementation.",
+         "DESIGN.md §4 C16"),
+ "C24": ("proof", "Lean 4 proof that symbol registration is permutation-invariant for key-disjoint files and that canon-invariant outputs do not depend on the ids an order induces + correspondence (hx order reg vs vmodel order) + oracle: all/random permutations of pass-1 order and two processes give identical SV, maps and diagnostics",
+         "Theorem for every file list permutation; pass 2/emitter reading symbols only through (namespace,name) lookups is validated by the permutation runs.",
+         "Trusted: Lean kernel; DefineContext exclusivity abstracted; HashMap-order effects observed by running two processes.",
+         "DESIGN.md §4 C24"),
+ "C25": ("proof", "Lean 4 proof about the path mapping (injectivity per source dir/target kind) and the filelist sort (listed once, membership iff) with negated statements (bundle/multi-source collision, completeness, multi-component order) + correspondence (hx paths, model sortFilelist reproduces the CLI filelist from the real type dag) + oracle on generated projects built by the CLI",
+         "Theorems for all path sets/graphs; five recorded findings keyed by verified signature.",
+         "Trusted: Lean kernel; python project generator (known reference graph).",
+         "DESIGN.md §4 C25"),
+ "C27": ("proof", "Lean 4 proof of the per-file decision logic of fmt/build check vs write modes (fmt_check_iff; build ⇐ direction and exact partial characterisation; negated full iff with witnesses) + correspondence (model vs CLI on generated project states) + oracle: `--check` exit status vs files the write mode changes on a copy",
+         "fmt: full iff; build: full iff is false (maps, filelist, std), recorded as findings.",
+         "Trusted: Lean kernel; CLI observed only through exit status and file hashes.",
+         "DESIGN.md §4 C27"),
+ "C31": ("proof", "Lean 4 proof about version resolution, lock generation (distinct names for every order), update (modified iff uuid sets differ, idempotent after new), save/load round-trip; negated order-invariance and second-update statements with witnesses + correspondence (hx resolve on path deps and local git repos vs vmodel resolve, model run with the HashMap order the implementation used) + oracle",
+         "All dependency graphs/release histories in the model (matching is an arbitrary predicate); semver, uuid v5, toml trusted.",
+         "Trusted: Lean kernel; git CLI on local repositories only (no network).",
+         "DESIGN.md §4 C31"),
+ "C32": ("proof", "Lean 4 proof of range_in_bounds for every width/signedness/bounds and any sampler honouring its contract, FNV-1a seed derivation with constants regenerated from source, stream reproducibility, schedule invariance of the report multiset + correspondence (hx random vs vmodel random with a replica Pcg64) + oracle",
+         "Scheduling theorem is over an abstract worker pool under the hypothesis that a report is a function of (seed, test); the CLI-level run under different CPU counts is not yet part of the check.",
+         "Trusted: Lean kernel; rand/rand_pcg sampler contract; tools/gen.py (FNV constants).",
+         "DESIGN.md §4 C32"),
+ "C35": ("proof", "Lean 4 proof of word marshalling round-trips at every width (value↔words, mask words, little-endian linear memory), pre-edge input staging and output visibility over the modelled step order; negated native≡wasm statement (null mask pointer) + correspondence (hx words/comp with a native echo component on all engine configs) + oracle",
+         "The wasm transport cannot be run here (no wasm32 target): the native/wasm divergence is proved on the model and found by reading, not replayed.",
+         "Trusted: Lean kernel; CompTiming is an abstraction tied to the simulator only by the comp domain.",
+         "DESIGN.md §4 C35"),
+ "C36": ("proof", "Lean 4 proof of the svLogicVecVal encoding (Annex H table per bit, padding, both representations) and round-trips for every width, VCD bit order + correspondence (hx svlv/cosim vs vmodel svlv, real libveryl_cosim via dlopen) + oracle; dumps: every VCD value vs Simulator::get_var on generated designs under all engine configurations",
+         "Encoding theorems unbounded in width; waveform half is validated (parsed VCD vs simulator state), the vcd/fst writers are trusted.",
+         "Trusted: Lean kernel; num-bigint digit functions; vcd crate.",
+         "DESIGN.md §4 C36"),
+ "C17": ("proof", "Lean 4 proofs, one family per operator (U64 arm = BigUint arm = IEEE 1800 reference, no width bound), of a line-by-line checked-arithmetic model of Op::eval_value_* and Value::{expand,trunc,select,concat,assign}; negation witnesses + partial theorems for the recorded IEEE deviations + correspondence (hx value vs vmodel value; exhaustive ≤ 3/4-bit 4-state, boundary-biased random) + oracle (vmodel valueref, cross-checked against value.rs's own unit-test vectors)",
+         "110 theorems; every operator the constant folder implements is covered end to end; nine recorded deviations (Eq/Ne/LogicAnd with X, Pow corners, out-of-range select, wide assign) keyed by verified signature with replayed witnesses.",
+         "Trusted: Lean kernel; num-bigint = Nat/Int arithmetic; my transcription of IEEE 1800-2017 §11.4 (Ref), cross-checked against 550 unit-test vectors of value.rs.",
+         "DESIGN.md §4 C17"),
+ "C30": ("proof", "Lean 4 proofs over an interleaving semantics of filesystem steps (lock-bracketed commands serialise; atomically replaced files are only ever read absent/complete; try_open never blocks; dependency checkout safe) with negated statements and schedules for the std-expansion and resolve races + correspondence by trace inclusion (strace of real veryl/veryl-ls runs abstracted to model events and accepted by vmodel fs; negative controls) + concurrent-run oracle vs serial twin and clean build",
+         "All interleavings of the modelled step programs; flock/rename atomicity and whole-file reads are trusted OS behaviour; two recorded races keyed by verified signature.",
+         "Trusted: Lean kernel; strace and the path classifier in tools/strace_fs.py; OS flock/rename semantics.",
+         "DESIGN.md §4 C30"),
 }
 
-HOLD = {"C23"}      # built, waiting for a green run on the current tree
+HOLD = set()      # built but waiting for a green run on the current tree
 
 PENDING_REASON = "not claimed yet: check under construction (see DESIGN.md §6 order of construction)"
 
